@@ -3,6 +3,8 @@ package harness
 import (
 	"fmt"
 	"net"
+	"os"
+	"path/filepath"
 	"regexp"
 	"sort"
 	"strings"
@@ -34,6 +36,19 @@ func c18Scenario(cs c18Case) *explore.Scenario {
 		path = WriteScratch("c18/"+strings.Join(cs.Entries, "_")+".nonl.txt", strings.Join(cs.Entries, "\n"))
 	case "file-crlf":
 		path = WriteScratch("c18/"+strings.Join(cs.Entries, "_")+".crlf.txt", strings.Join(cs.Entries, "\r\n")+"\r\n")
+	case "file-symlink", "file-symlink-chain":
+		// the server file reached through a symbolic link (configuration management, ConfigMap mounts)
+		target := WriteScratch("c18/"+strings.Join(cs.Entries, "_")+".target.txt", strings.Join(cs.Entries, "\n")+"\n")
+		path = target + "." + cs.Source
+		os.Remove(path)
+		if cs.Source == "file-symlink" {
+			os.Symlink(target, path)
+		} else {
+			mid := target + ".mid"
+			os.Remove(mid)
+			os.Symlink(filepath.Base(target), mid) // relative link
+			os.Symlink(mid, path)
+		}
 	}
 	want := map[string]bool{}
 	var re *regexp.Regexp
@@ -64,7 +79,7 @@ func c18Scenario(cs c18Case) *explore.Scenario {
 			switch cs.Source {
 			case "comma":
 				d = discovery.New("", strings.Join(cs.Entries, ","), discovery.Shuffle)
-			case "file", "file-no-final-newline", "file-crlf":
+			case "file", "file-no-final-newline", "file-crlf", "file-symlink", "file-symlink-chain":
 				d = discovery.New("", path, discovery.Shuffle)
 			case "module":
 				discovery.VerifServers = cs.Entries
@@ -223,7 +238,7 @@ func init() {
 	Register(&Check{
 		ID:    "C18",
 		Level: "model_checking",
-		Rule: "all server lists of length 1..5 (quick) / 1..6 (thorough) over {a, b, c:2222, a.dom} (so all duplicate patterns), given as comma list, as server file (newline-terminated, without final newline, CRLF) and through a discovery " +
+		Rule: "all server lists of length 1..5 (quick) / 1..6 (thorough) over {a, b, c:2222, a.dom} (so all duplicate patterns), given as comma list, as server file (newline-terminated, without final newline, CRLF, reached through a symbolic link and through a chain of two) and through a discovery " +
 			"module with the filters none, /a/, /^c/, /x/, /./; every random number the shuffle draws is an environment choice and ALL answer sequences are explored " +
 			"(complete tree, no bound); oracle: returned multiset == distinct entries matching the filter; plus, end to end, a real dcat over every list of <=3 entries (every entry an in-process server): each distinct server delivers the file exactly once; and a following client whose connections are all dropped re-connects only to the listed host:port entries (real TCP listeners, virtual time); distinct = distinct (case, returned order) pairs",
 		Assumptions: []string{"math/rand is replaced by an explorer-owned choice; regexp is trusted"},
@@ -235,7 +250,8 @@ func init() {
 			lists := c18Lists(n)
 			for _, l := range lists {
 				var cases []c18Case
-				cases = append(cases, c18Case{"comma", l, ""}, c18Case{"file", l, ""}, c18Case{"file-no-final-newline", l, ""}, c18Case{"file-crlf", l, ""})
+				cases = append(cases, c18Case{"comma", l, ""}, c18Case{"file", l, ""}, c18Case{"file-no-final-newline", l, ""}, c18Case{"file-crlf", l, ""},
+					c18Case{"file-symlink", l, ""}, c18Case{"file-symlink-chain", l, ""})
 				for _, f := range []string{"", "/a/", "/^c/", "/x/", "/./"} {
 					cases = append(cases, c18Case{"module", l, f})
 				}
